@@ -112,6 +112,7 @@ def fam_ops(tier, seed):
         g = ops_grammar("ops_%04d" % i, name, th, maxlen)
         if not well_formed(g):
             continue
+        add_extras(g, rnd, 8 if tier == "quick" else 40, 4, 8)
         out.append(g)
         i += 1
         if i >= len(chosen) + n_d2:
@@ -135,6 +136,76 @@ def sample(rnd, xs, n):
     return rnd.sample(xs, n)
 
 
+def sentence(g, rnd, e, depth=0):
+    """a random string derived from expression e (ignores lookaheads, checks and whitespace):
+    grammar-directed inputs reach deep structure that uniformly random strings rarely do"""
+    if depth > 6:
+        return ""
+    if isinstance(e, Seq):
+        return "".join(sentence(g, rnd, p, depth) for p in e.parts)
+    if isinstance(e, Choice):
+        return sentence(g, rnd, rnd.choice(e.alts), depth)
+    if isinstance(e, Opt):
+        return sentence(g, rnd, e.b, depth) if rnd.random() < 0.6 else ""
+    if isinstance(e, Clo):
+        n = rnd.choice([0, 1, 1, 2, 2, 3]) if not e.plus else rnd.choice([1, 1, 2, 3])
+        return "".join(sentence(g, rnd, e.b, depth + 1) for _ in range(n))
+    if isinstance(e, (Neg, Pos, Eoi)):
+        return ""
+    if isinstance(e, Lit):
+        if e.s is None:
+            return ""
+        return "".join(c.swapcase() if e.ci and rnd.random() < 0.5 else c for c in e.s)
+    if isinstance(e, Range):
+        if isinstance(e.lo, str) and isinstance(e.hi, str) and e.lo <= e.hi:
+            cands = [c for c in (g.alpha or []) if e.lo <= c <= e.hi]
+            return rnd.choice(cands) if cands else e.lo
+        return ""
+    if isinstance(e, Inc):
+        r = g.rule(e.rule)
+        return sentence(g, rnd, r.body, depth + 1) if r is not None and r.kind == "rule" else ""
+    if isinstance(e, Call):
+        r = g.rule(e.rule)
+        if r is None:
+            return rnd.choice(g.alpha) if e.rule == "char" and g.alpha else (" " if e.rule == "Whitespace" else "")
+        if r.kind == "rule":
+            return sentence(g, rnd, r.body, depth + 1)
+        if r.kind == "char":
+            p = rnd.choice(r.parts)
+            if p[0] == "lit":
+                return p[1] if isinstance(p[1], str) else ""
+            if p[0] == "range":
+                return p[1] if isinstance(p[1], str) else ""
+            return sentence(g, rnd, Call(p[1]), depth + 1)
+        o = r.fn.get("o")
+        return {"digits": "1", "two": "".join(rnd.choice(g.alpha) for _ in range(2)) if g.alpha else "", "upper": "B"}.get(o, "")
+    return ""
+
+
+def add_extras(g, rnd, n, lo, hi):
+    """seeded inputs beyond the exhaustive bound: n uniformly random strings over the alphabet and n
+    strings derived from the grammar itself (some of them with one character changed)"""
+    for _ in range(n):
+        g.extra.append([rnd.choice(g.alpha) for _ in range(rnd.randint(lo, hi))])
+    root = g.rule(g.root)
+    skip = any(r.kind == "rule" and not r.no_skip_ws for r in g.rules)
+    for _ in range(n):
+        t = sentence(g, rnd, root.body)
+        if len(t) > 14:
+            t = t[:14]
+        cs = list(t)
+        k = rnd.random()
+        if cs and k < 0.25:
+            cs[rnd.randrange(len(cs))] = rnd.choice(g.alpha)
+        elif k < 0.4:
+            cs.insert(rnd.randint(0, len(cs)), rnd.choice(g.alpha))
+        elif skip and k < 0.6 and " " in g.alpha:
+            cs.insert(rnd.randint(0, len(cs)), " ")
+        if all(c in g.alpha for c in cs):
+            g.extra.append(cs)
+    return g
+
+
 def finish(gs):
     """drop ill-formed grammars, renumber"""
     return [g for g in gs if well_formed(g)]
@@ -148,6 +219,7 @@ def field_atoms():
         ("xB", lambda: Call("B", "x")),
         ("yA", lambda: Call("A", "y")),
         ("xT", lambda: Call("T", "x")),
+        ("xD", lambda: Call("D", "x")),
         ("yc", lambda: Call("char", "y")),
         ("xbA", lambda: Call("A", "x", boxed=True)),
         ("A", lambda: Call("A")),
@@ -197,6 +269,7 @@ def fields_rules(body, root_kw=None):
         Rule("A", Lit("a"), no_skip_ws=True),
         Rule("B", Seq(Lit("b"), Opt(Lit("b"))), no_skip_ws=True),
         Rule("T", Clo(Choice(Lit("a"), Lit("b")), plus=True), string=True, no_skip_ws=True),
+        Rule("D", Choice(Lit("a"), Lit("b")), string=True, no_skip_ws=True),
     ]
 
 
@@ -221,6 +294,14 @@ def fam_fields(tier, seed):
         ("same_field_thrice", lambda: Seq(Call("A", "x"), Opt(Call("A", "x")), Call("A", "x"))),
         ("boxed_mixed", lambda: Choice(Call("A", "x", boxed=True), Seq(Call("B", "x"), Call("A", "x")))),
         ("lookahead_then_field", lambda: Seq(Pos(Call("A")), Call("A", "x"), Neg(Call("A")))),
+        ("nested_clo_order", lambda: Clo(Seq(Lit("c"), Clo(Call("D", "x"))))),
+        ("nested_clo_two_fields", lambda: Clo(Seq(Call("D", "y"), Lit("c"), Clo(Call("D", "x"))))),
+        ("clo_opt_extra_value", lambda: Clo(Seq(Call("D", "x"), Opt(Seq(Lit("c"), Call("D", "x"))), Lit("c")))),
+        ("clo_then_same_field", lambda: Seq(Clo(Seq(Call("D", "x"), Lit("c"))), Call("D", "x"), Opt(Call("D", "x")))),
+        ("opt_two_fields_partial", lambda: Seq(Opt(Seq(Call("A", "x"), Lit("c"), Call("B", "y"))), Lit("c"))),
+        ("opt_three_fields_partial", lambda: Seq(Opt(Seq(Call("A", "x"), Call("B", "y"), Call("A", "z"), Lit("c"))), Call("A", "w"))),
+        ("clo_two_fields_partial", lambda: Seq(Clo(Seq(Call("A", "x"), Call("B", "y"), Lit("c"))), Lit("a"))),
+        ("choice_two_fields_partial", lambda: Choice(Seq(Call("A", "x"), Call("B", "y"), Lit("c")), Seq(Call("A", "x"), Lit("c")))),
         ("choice_backtrack_field", lambda: Choice(Seq(Call("A", "x"), Lit("c")), Seq(Call("A", "y"), Call("B", "x")))),
     ]
     out = []
@@ -234,6 +315,7 @@ def fam_fields(tier, seed):
             continue
         g = Grammar("fld_%04d" % len(out), fields_rules(body), root="S", maxlen=maxlen, meta={"shape": name})
         g.alpha = ["a", "b", "c"]
+        add_extras(g, rnd, 12 if tier == "quick" else 60, 4, 8)
         if well_formed(g):
             out.append(g)
     # override rules: simple, optional, enum, through a prefix
@@ -318,16 +400,14 @@ def fam_ws(tier, seed):
            alpha=("a", "b", " ", "\t", "\r"))
         mk("ff_" + bn, [Rule("S", body, export=True, position=True)] + callee + extra,
            alpha=("a", "b", "\x0c", " "))
-    if tier == "quick":
-        keep = sample(rnd, shapes, 60)
-    else:
-        keep = shapes
+    keep = shapes
     out = []
     for name, rules, alpha in keep:
         g = Grammar("ws_%04d" % len(out), rules, root="S", maxlen=maxlen if len(alpha) <= 4 else maxlen - 1 + (tier != "quick"),
                     meta={"shape": name})
         g.alpha = alpha
-        g.maxlen = maxlen if len(alpha) <= 4 else (3 if tier == "quick" else 4)
+        g.maxlen = (maxlen if len(alpha) <= 4 else 3) if tier != "quick" else (3 if len(alpha) <= 4 else 3)
+        add_extras(g, rnd, 10 if tier == "quick" else 60, 4, 7)
         if well_formed(g):
             out.append(g)
     return out
@@ -379,6 +459,11 @@ def memo_bases():
                  Rule("A", Seq(Lit("a"), Lit("a")), no_skip_ws=True),
                  Rule("B", Lit("a"), no_skip_ws=True)],
                 ["a", "x", "b"], ["S", "O", "A", "B"]))
+    even = {"o": "str_even", "path": "verif_common::oracles::chk_str_even", "name": "verif_common::oracles::chk_str_even"}
+    out.append(("check_retry",
+                [Rule("S", Choice(Seq(Call("K", "k"), Lit("!")), Call("K", "k")), export=True, no_skip_ws=True),
+                 Rule("K", Clo(Lit("a"), plus=True), string=True, no_skip_ws=True, checks=[even])],
+                ["a", "!", "b"], ["S", "K"]))
     return out
 
 
@@ -420,6 +505,20 @@ def fam_memo(tier, seed):
             g.alpha = alpha
             if name == "nested_exp":
                 g.extra = [list("a" * 7), list("a" * 6 + "b")] if tier == "quick" else [list("a" * 10), list("a" * 9 + "c")]
+            else:
+                add_extras(g, random.Random(seed * 7919 + 40 + len(name)), 6 if tier == "quick" else 40, 5, 9)
+            if name in ("memo_in_closure", "failing_prefix", "three_level"):
+                # inputs longer than 256 / 512 bytes: a cache keyed on part of the offset shows only there
+                lr_ = random.Random(seed * 7919 + 41 + len(name))
+                for n_ in ((300,) if tier == "quick" else (300, 600, 1100)):
+                    unit = {"memo_in_closure": ["ax", "aay", "ay", "aaax"], "failing_prefix": ["a", "b", "ab"],
+                            "three_level": ["a", "aa", "x"]}[name]
+                    t = ""
+                    while len(t) < n_:
+                        t += lr_.choice(unit)
+                    if name == "three_level":
+                        t = "a" * (n_ % 2 + 1) + "x"
+                    g.real_extra.append(list(t))
             if well_formed(g):
                 out.append(g)
     return out
@@ -468,6 +567,16 @@ def lr_bases():
                                          export=True, no_skip_ws=True),
                                     Rule("E", Choice(Seq(Call("E", "l", boxed=True), Lit("+"), Lit("n")), Lit("n")),
                                          no_skip_ws=True, leftrec=True)], "S", ["n", "+", "x", "y"], True))
+    out.append(("lr_reparse_eoi", [Rule("S", Choice(Seq(Call("E", "e"), Lit("!"), Eoi()), Seq(Call("E", "e"), Eoi())),
+                                        export=True, no_skip_ws=True),
+                                   Rule("E", Choice(Seq(Call("E", "l", boxed=True), Lit("+"), Lit("n")), Lit("n")),
+                                        no_skip_ws=True, leftrec=True)], "S", ["n", "+", "!"], True))
+    out.append(("nullable_seed", [Rule("A", Choice(Seq(Call("A", "l", boxed=True), Lit("x")), Opt(Lit("b"))),
+                                       export=True, no_skip_ws=True, leftrec=True)], "A", ["b", "x", "y"], True))
+    out.append(("nullable_seed_path", [Rule("S", Seq(Call("P", "p"), Eoi()), export=True, no_skip_ws=True),
+                                       Rule("P", Choice(Seq(Call("P", "parent", boxed=True), Lit("/"), Call("N", "name")),
+                                                        Opt(Call("N", "name"))), no_skip_ws=True, leftrec=True),
+                                       Rule("N", Clo(Lit("a"), plus=True), string=True, no_skip_ws=True)], "S", ["a", "/", "x"], True))
     out.append(("neg_guard", [Rule("A", Choice(Seq(Call("A", "l", boxed=True), Lit("x")), Seq(Neg(Call("A")), Lit("b"))),
                                    export=True, no_skip_ws=True, leftrec=True)], "A", ["b", "x"], True))
     return out
@@ -480,6 +589,7 @@ def fam_lr(tier, seed):
         g = Grammar("lr_%04d" % len(out), rules, root=root, maxlen=maxlen if len(alpha) <= 3 else maxlen - 1,
                     meta={"shape": name, "lrfirst": lrfirst})
         g.alpha = alpha
+        add_extras(g, random.Random(seed * 7919 + 7 + len(out)), 15 if tier == "quick" else 80, 5, 9)
         if well_formed(g):
             out.append(g)
     return out
@@ -689,6 +799,9 @@ def fam_user(tier, seed):
     mk("chk_never_always", [Rule("S", Choice(Call("N", "n"), Call("Y", "y")), export=True, no_skip_ws=True),
                             Rule("N", Lit("a"), no_skip_ws=True, checks=[always, never]),
                             Rule("Y", Lit("a"), no_skip_ws=True, checks=[always, always])], ["a", "b"])
+    mk("chk_memo_retry", [Rule("S", Choice(Seq(Call("K", "k"), Lit("!")), Call("K", "k"), Call("char", "c")), export=True, no_skip_ws=True),
+                          Rule("K", Clo(Lit("a"), plus=True), string=True, no_skip_ws=True, memoize=True, checks=[even])],
+       ["a", "!", "b"])
     # checks on struct / enum / override / position rules: generated per grammar
     mk("chk_struct_len", [Rule("S", Seq(Call("L", "l"), Clo(Lit("a"))), export=True, no_skip_ws=True),
                           Rule("L", Clo(Call("A", "xs")), no_skip_ws=True,
@@ -855,3 +968,59 @@ def fam_bad(tier, seed):
 
 
 FAMILIES["bad"] = fam_bad
+
+
+# ----------------------------------------------------------------------------- F-term (terminals)
+
+def fam_term(tier, seed):
+    """every kind of terminal over characters chosen to separate near misses: case bits (c ^ 0x20),
+    neighbours (c +- 1), punctuation next to the letters, control characters, multi-byte characters"""
+    rnd = random.Random(seed * 7919 + 17)
+    maxlen = 3 if tier == "quick" else 4
+    out = []
+
+    def near(chars):
+        al = []
+        for c in chars:
+            o = ord(c)
+            for x in (o, o ^ 0x20, o + 1, o - 1):
+                if 0 < x < 0x110000 and not (0xD800 <= x <= 0xDFFF) and chr(x) not in al:
+                    al.append(chr(x))
+        return al
+
+    lits = ["a", "Z", "_", "{", "@", "1", "\n", "~", "\x7f", "é", "ab", "a_", "a{", "@a", "a1", "a\nb", "z~", "_x_", "Az",
+            "aé", "[]", "A-Z", "`", "^_"]
+    for i, l in enumerate(lits):
+        for ci in (False, True):
+            if ci and not l.isascii():
+                continue
+            for body_name, mk in (("lit", lambda t: t), ("lit_eoi", lambda t: Seq(t, Eoi())),
+                                  ("clo_lit", lambda t: Seq(Clo(t), Opt(Call("char", "c"))))):
+                body = mk(Lit(l, ci=ci))
+                g = Grammar("term_%04d" % len(out), [Rule("S", body, export=True, position=True, no_skip_ws=True)], root="S",
+                            maxlen=max(maxlen, min(len(l) + 1, 4)), meta={"shape": "%s_%s%r" % (body_name, "i" if ci else "", l)})
+                al = near(l)
+                g.alpha = al[:5] if tier == "quick" else al[:6]
+                # make sure the literal itself and its case-swapped spelling are tried whatever the alphabet cut
+                flipped = "".join(chr(ord(c) ^ 0x20) if ord(c) < 128 else c for c in l)
+                g.extra = [list(l), list(l.swapcase()), list(l + l), list(l.upper()), list(l.lower()), list(flipped)]
+                g.alpha = list(dict.fromkeys(g.alpha + [c for x in g.extra for c in x]))[:7]
+                if tier == "quick" and len(g.alpha) > 5:
+                    g.maxlen = 2
+                add_extras(g, rnd, 10 if tier == "quick" else 50, 3, 6)
+                if well_formed(g):
+                    out.append(g)
+    ranges = [("a", "z"), ("A", "Z"), ("0", "9"), ("@", "["), ("`", "{"), ("\x00", "\x1f"), ("~", "\x80"), ("z", "é"),
+              ("a", "a"), ("b", "a")]
+    for lo, hi in ranges:
+        body = Seq(Range(lo, hi), Opt(Range(lo, hi)))
+        g = Grammar("term_%04d" % len(out), [Rule("S", body, export=True, position=True, no_skip_ws=True)], root="S",
+                    maxlen=maxlen, meta={"shape": "range_%r_%r" % (lo, hi)})
+        g.alpha = near([lo, hi])[:6]
+        add_extras(g, rnd, 10, 3, 6)
+        if well_formed(g):
+            out.append(g)
+    return out
+
+
+FAMILIES["term"] = fam_term
